@@ -438,3 +438,32 @@ func verifH_C05_int_bounds() {
 	}
 	verifReach("end")
 }
+
+func verifC05Cookie(maxItems, leafMax int) {
+	explode := verifChoose("explode", 2) == 1
+	// bytes a cookie value cannot carry (net/http drops or rewrites them) are outside the claim
+	shape, texts, keys, types := verifShape(maxItems, leafMax, ",=;\"\\ ")
+	verifAssume(shape == 0 || !explode) // arrays and objects in cookies are only defined non-exploded
+	name := "q"
+	raw := ""
+	switch shape {
+	case 0:
+		raw = texts[0]
+	case 1:
+		raw = verifJoin(texts, ",")
+	default:
+		var kv []string
+		for i, k := range keys {
+			kv = append(kv, k, texts[i])
+		}
+		raw = verifJoin(kv, ",")
+	}
+	param := &openapi3.Parameter{Name: name, In: "cookie", Style: "form", Explode: &explode, Schema: verifParamSchema(shape, keys, types)}
+	input := &RequestValidationInput{Request: &http.Request{Header: http.Header{"Cookie": []string{"other=1; " + name + "=" + raw}}, URL: &url.URL{}}}
+	got, found, err := decodeStyledParameter(param, input)
+	verifCheckDecoded("cookie/form", got, found, err, shape, texts, keys, types)
+	verifReach("end")
+}
+
+//verif:harness id=C05 tier=quick,thorough witness=end bounds="cookie parameters: style form x shape (primitive with either explode, non-exploded array of 1-2, non-exploded object of 1-2 properties) x leaf type x every printable-ASCII leaf text of 1-2 bytes without , = ; quote backslash space; the Cookie header is parsed by the interpreted net/http code"
+func verifH_C05_cookie() { verifC05Cookie(2, 2) }
